@@ -63,6 +63,53 @@ theorem one_flow_per_key (a i : Nat) (ops : List Op) :
     8 x growth does not fit 64 bits it wraps (outside the contract's guard) -/
 theorem throughput_wraps : thrOf (2 ^ 62) 0 2 1 = 0 ∧ thrOf (2 ^ 61 - 1) 0 2 1 = 8 * (2 ^ 61 - 1) := by decide
 
+/-! ## httpVals
+
+  In the sessions that configure httpVals among the non-stats elements every record carries a value
+  of it - any string is legal. The arithmetic never looks at it. -/
+
+/-- the statistics update does not read the record's httpVals -/
+theorem aggNums_ignores_httpVals (r : InRec) (n : Nums) (fs fd : Bool) (v : Option Bytes) :
+    aggNums { r with httpVals := v } n fs fd = aggNums r n fs fd := by
+  simp [aggNums]
+
+/-- whatever the incoming and the stored record hold as httpVals - nothing, a JSON object, text that is no
+    JSON - every field the property talks about (end times, counters, throughput; `AggRec.nums`) comes out
+    the same -/
+theorem httpVals_never_touches_arithmetic (r : InRec) (a : AggRec) (v w : Option Bytes) :
+    (update { r with httpVals := v } { a with httpVals := w }).nums = (update r a).nums := by
+  unfold update
+  simp only []
+  split <;> (try split) <;> (try split) <;> simp [aggregate, AggRec.nums, aggNums_ignores_httpVals]
+
+/-- a value that does not parse, incoming or stored, is not an error of the aggregation: the incoming value
+    replaces the stored one -/
+theorem unparsable_httpVals_replaces (i e : Bytes) (h : parseHttp i = none ∨ parseHttp e = none) : fillHttp i e = i := by
+  unfold fillHttp
+  rcases h with h | h
+  · simp [h]
+  · rw [h]; split <;> simp_all
+
+/-- fillHttpVals on concrete values (bytes of the JSON text): incoming {"1":"a","10":"b","2":"c"}, stored {"1":"zz","3":"q"} give
+    {"1":"zz","10":"b","2":"c","3":"q"} (the stored text of id 1 wins; "10" sorts before "2"); two empty strings give {};
+    a cut-off incoming value {"1":"a replaces the stored one as it is -/
+example : fillHttp [123, 34, 49, 34, 58, 34, 97, 34, 44, 34, 49, 48, 34, 58, 34, 98, 34, 44, 34, 50, 34, 58, 34, 99, 34, 125] [123, 34, 49, 34, 58, 34, 122, 122, 34, 44, 34, 51, 34, 58, 34, 113, 34, 125] = [123, 34, 49, 34, 58, 34, 122, 122, 34, 44, 34, 49, 48, 34, 58, 34, 98, 34, 44, 34, 50, 34, 58, 34, 99, 34, 44, 34, 51, 34, 58, 34, 113, 34, 125] ∧ fillHttp [] [] = [123, 125] ∧
+    fillHttp [123, 34, 49, 34, 58, 34, 97] [123, 34, 49, 34, 58, 34, 122, 122, 34, 125] = [123, 34, 49, 34, 58, 34, 97] ∧ fillHttp [123, 34, 53, 34, 58, 34, 120, 34, 125] [103, 97, 114, 98, 97, 103, 101] = [123, 34, 53, 34, 58, 34, 120, 34, 125] := by decide
+/-- a record that is not later than its node's previous one is skipped after the end times were written: the
+    non-stats elements (httpVals among them) and the counters stay -/
+theorem skipped_record_leaves_non_stats (r : InRec) (a : AggRec) (fs fd : Bool) (h : r.end_ ≤ prevEnd r a fs fd) :
+    (aggregate r a fs fd).httpVals = a.httpVals ∧ (aggregate r a fs fd).stats = a.stats ∧
+    (aggregate r a fs fd).tcpState = a.tcpState ∧ (aggregate r a fs fd).endReason = a.endReason := by
+  have hs : aggNums r a.nums fs fd =
+      { a.nums with end_ := if r.end_ ≥ a.end_ then r.end_ else a.end_, endSrc := if fs then r.end_ else a.endSrc,
+                    endDst := if fd then r.end_ else a.endDst } := by
+    simp only [aggNums]
+    exact if_pos h
+  refine ⟨?_, ?_, ?_, ?_⟩
+  · unfold aggregate
+    simp only []
+    cases hr : r.httpVals <;> cases ha : a.httpVals <;> simp [h]
+  all_goals (unfold aggregate; simp only []; rw [hs]; rfl)
 /-! ## Non-vacuity: a contract-respecting correlated history with a reset -/
 def cS : List CorrV := [.str [1], .str [], .str [], .str [], .str [], .str [], .ip4 [0,0,0,0], .num 0, .num 0, .num 0, .num 0, .ip6 zero16]
 def cD : List CorrV := [.str [], .str [], .str [], .str [2], .str [], .str [], .ip4 [0,0,0,0], .num 0, .num 0, .num 0, .num 0, .ip6 zero16]
